@@ -484,6 +484,54 @@ fn permutations(v: &mut Vec<usize>, k: usize, f: &mut dyn FnMut(&[usize])) {
     }
 }
 
+/// A socket whose last export has a very long name, plugged by a component that supplies its import:
+/// the tail of the output after its last newline byte is then longer than any stdout line buffer.
+fn check_long_plug(len: &usize) -> Outcome {
+    let long = format!("x{}", "a".repeat(*len));
+    let socket = wat::parse_str(format!("(component (import \"f\" (func)) (export \"{long}\" (func 0)))")).unwrap();
+    let plug = wat::parse_str("(component (core module $m (func (export \"f\"))) (core instance $i (instantiate $m)) (func $f (canon lift (core func $i \"f\"))) (export \"f\" (func $f)))").unwrap();
+    let mut o = Outcome::pass().nontrivial(true).label("plug-long-export-name");
+    for (wat_flag, output) in [(false, false), (false, true), (true, false)] {
+        let dir = scratch("plugl", &format!("{len}-{wat_flag}-{output}"));
+        std::fs::write(dir.join("socket.wasm"), &socket).unwrap();
+        std::fs::write(dir.join("p.wasm"), &plug).unwrap();
+        let mut args: Vec<String> = vec!["plug".into(), "--plug".into(), "p.wasm".into()];
+        if wat_flag {
+            args.push("-t".into());
+        }
+        if output {
+            args.push("-o".into());
+            args.push("out.bin".into());
+        }
+        args.push("socket.wasm".into());
+        let want = (|| -> Result<Vec<u8>, String> {
+            let mut g = CompositionGraph::new();
+            let sp = Package::from_bytes("socket", None, socket.clone(), g.types_mut()).map_err(|e| format!("{e:#}"))?;
+            let s = g.register_package(sp).map_err(|e| e.to_string())?;
+            let pp = Package::from_bytes("plug:p", None, plug.clone(), g.types_mut()).map_err(|e| format!("{e:#}"))?;
+            let p = g.register_package(pp).map_err(|e| e.to_string())?;
+            wac_graph::plug(&mut g, vec![p], s).map_err(|e| format!("{e:#}"))?;
+            g.encode(EncodeOptions::default()).map_err(|e| format!("{e:#}"))
+        })();
+        let ran = run_cli(&dir, &args);
+        let file = std::fs::read(dir.join("out.bin")).ok();
+        let _ = std::fs::remove_dir_all(&dir);
+        match want {
+            Err(e) => return Outcome::gen_invalid(format!("long-name plug does not compose in the library: {e}")),
+            Ok(bytes) => {
+                if ran.code != Some(0) {
+                    return o.with_verdict(Verdict::Fail { sig: "C19/plug/cli-fails-library-succeeds".into(), msg: ran.stderr });
+                }
+                if let Err((sig, msg)) = same_output("C19/plug", wat_flag, output, &ran, file, &bytes, true) {
+                    return o.with_verdict(Verdict::Fail { sig: format!("{sig}:long-export-name"), msg });
+                }
+            }
+        }
+        o.comparisons += 2;
+    }
+    o
+}
+
 // ---------------------------------------------------------------------------------------------
 // parse
 
@@ -533,6 +581,9 @@ pub struct TargetsCase {
     pub changes: Vec<(u8, u8)>,
     pub name_world: bool,
     pub second_world: bool,
+    /// `--world` names a world the WIT file does not define
+    #[serde(default)]
+    pub wrong_world: bool,
 }
 
 const TNAMES: &[&str] = &["f", "g", "run", "api", "dep"];
@@ -621,7 +672,7 @@ fn check_targets(c: &TargetsCase) -> Outcome {
     let mut args: Vec<String> = vec!["targets".into(), "c.wasm".into(), "--wit".into(), "w.wit".into()];
     if c.name_world {
         args.push("--world".into());
-        args.push("w".into());
+        args.push(if c.wrong_world { "nope".into() } else { "w".into() });
     }
     // ---- library: the documented pipeline of `wac targets`
     let want = guarded(|| -> Result<(), String> {
@@ -633,7 +684,7 @@ fn check_targets(c: &TargetsCase) -> Outcome {
         let compo = Package::from_bytes("component", None, bytes.clone(), &mut types).map_err(|e| format!("{e:#}"))?;
         let top = &types[witp.ty()];
         let world = if c.name_world {
-            top.exports.get("w").ok_or("no world w")?
+            top.exports.get(if c.wrong_world { "nope" } else { "w" }).ok_or("no such world")?
         } else if top.exports.len() == 1 {
             top.exports.values().next().unwrap()
         } else {
@@ -654,6 +705,9 @@ fn check_targets(c: &TargetsCase) -> Outcome {
         Err(p) => return o.with_verdict(Verdict::Foreign(format!("library pipeline panicked: {p}"))),
     };
     o = o.label(if want.is_ok() { "targets-conforms" } else { "targets-rejects" });
+    if c.name_world && c.wrong_world {
+        o = o.label("targets:world-flag-names-no-world");
+    }
     match (&want, ran.code) {
         (Ok(()), Some(0)) => o.comparisons(1),
         (Err(_), Some(c)) if c != 0 => {
@@ -672,7 +726,7 @@ pub fn run(tier: Tier, seed: u64, replay: Option<&std::path::Path>) -> i32 {
         tier,
         seed,
         "exploration",
-        "the `wac` binary built from the working tree, run with an empty HOME in a scratch directory per case. compose: programs of C04's semantic generator (succeeding and failing at resolution/encoding) and three hand-made compositions (two that only validation rejects), optionally damaged (syntax error, missing package file, corrupt package file, a package moved away and named with --dep, with and without a decoy left in the deps dir) x --import-dependencies x --no-validate x -t x -o x --deps-dir. plug: sockets and 1-4 plugs of C10's generator as files (optionally two plugs with one file stem) x -t x -o. parse: grammar-generated and mutated documents. targets: generated world/component pairs with drops, extras and type changes x --world, single- and two-world WIT files. Oracle: the same pipeline executed in-process through the library with the options the documentation assigns to the flags: exit status 0 iff it succeeds; stdout / the -o file equal the library's bytes; -t output equals the text form of those bytes, assembles, validates and decodes to the same wiring; on failure a diagnostic, no stdout, no output file; embedded vs imported dependencies as documented. Non-trivial = a flag or damage that decides the outcome. Distinct by JSON hash.",
+        "the `wac` binary built from the working tree, run with an empty HOME in a scratch directory per case. compose: programs of C04's semantic generator (succeeding and failing at resolution/encoding) and three hand-made compositions (two that only validation rejects), optionally damaged (syntax error, missing package file, corrupt package file, a package moved away and named with --dep, with and without a decoy left in the deps dir) x --import-dependencies x --no-validate x -t x -o x --deps-dir. plug: sockets and 1-4 plugs of C10's generator as files (optionally two plugs with one file stem) x -t x -o. parse: grammar-generated and mutated documents. targets: generated world/component pairs with drops, extras and type changes x --world (naming the world, or a world that does not exist), single- and two-world WIT files; plug outputs whose last export name is 50 to 20000 characters long on stdout, to a file and as text. Oracle: the same pipeline executed in-process through the library with the options the documentation assigns to the flags: exit status 0 iff it succeeds; stdout / the -o file equal the library's bytes; -t output equals the text form of those bytes, assembles, validates and decodes to the same wiring; on failure a diagnostic, no stdout, no output file; embedded vs imported dependencies as documented. Non-trivial = a flag or damage that decides the outcome. Distinct by JSON hash.",
     );
     if !Path::new(BIN).exists() {
         eprintln!("BROKEN-CHECK: property=C19 the wac binary was not built at {BIN} (run through ./run.sh)");
@@ -712,16 +766,17 @@ pub fn run(tier: Tier, seed: u64, replay: Option<&std::path::Path>) -> i32 {
         }
     }
     run.enumerate(&fixed_cases, check_compose);
+    run.enumerate(&[50usize, 200, 700, 1500, 5000, 20000], check_long_plug);
     run.explore(2, 16, n / 32, || (crate::props::c10::case_strategy(), any::<bool>(), any::<bool>(), proptest::bool::weighted(0.3)).prop_map(|(case, wat, output, same_stem)| PlugCase { case, wat, output, same_stem }), check_plug);
     run.explore(3, 16, n / 64, || prop_oneof![crate::gen::wacsyn::syncase_strategy(4).prop_map(|s| s.text()), crate::gen::wacsyn::syncase_strategy(3).prop_map(|s| s.text().replacen(';', " ; }", 1)), "[ -~]{0,40}"], check_parse);
     run.explore(
         4,
         16,
         n / 32,
-        || (proptest::collection::vec((any::<bool>(), any::<u8>(), any::<u8>()), 0..5), proptest::collection::vec((any::<u8>(), any::<u8>()), 0..3), any::<bool>(), proptest::bool::weighted(0.3)).prop_map(|(world, changes, name_world, second_world)| TargetsCase { world, changes, name_world, second_world }),
+        || (proptest::collection::vec((any::<bool>(), any::<u8>(), any::<u8>()), 0..5), proptest::collection::vec((any::<u8>(), any::<u8>()), 0..3), any::<bool>(), proptest::bool::weighted(0.3), proptest::bool::weighted(0.2)).prop_map(|(world, changes, name_world, second_world, wrong_world)| TargetsCase { world, changes, name_world, second_world, wrong_world }),
         check_targets,
     );
-    for l in ["pipeline-ok", "fails-at-parse", "fails-at-package-resolution", "fails-at-resolution", "fails-at-encoding", "fails-at-validation", "validation-decides", "dep-override-with-decoy", "plug-ok", "plug-fails", "several-plugs", "repeated-plug-stem", "parse-ok", "parse-fails", "targets-conforms", "targets-rejects"] {
+    for l in ["pipeline-ok", "fails-at-parse", "fails-at-package-resolution", "fails-at-resolution", "fails-at-encoding", "fails-at-validation", "validation-decides", "dep-override-with-decoy", "plug-ok", "plug-fails", "several-plugs", "repeated-plug-stem", "parse-ok", "parse-fails", "targets-conforms", "targets-rejects", "targets:world-flag-names-no-world"] {
         run.floor(l, 5);
     }
     let _ = std::fs::remove_dir_all(SCRATCH);
